@@ -1995,13 +1995,23 @@ def _prop_formula(fn: FuncInfo) -> Optional[ast.AST]:
     return expr
 
 
-def _subst_self(e, repl: ast.AST):
-    import copy as _copy
+def clone(n, leaf=None):
+    """Structural copy of an AST (fields only: the parent links the engine adds are not followed).  `leaf(node)`
+    may return a replacement node for a sub-tree."""
+    if leaf is not None:
+        r = leaf(n)
+        if r is not None:
+            return r
+    if isinstance(n, ast.AST):
+        new = type(n)(**{f: clone(v, leaf) for f, v in ast.iter_fields(n)})
+        return ast.copy_location(new, n) if hasattr(n, "lineno") else new
+    if isinstance(n, list):
+        return [clone(x, leaf) for x in n]
+    return n
 
-    class T(ast.NodeTransformer):
-        def visit_Name(self, n):
-            return _copy.deepcopy(repl) if n.id == "self" else n
-    return T().visit(_copy.deepcopy(e))
+
+def _subst_self(e, repl: ast.AST):
+    return clone(e, lambda n: clone(repl) if isinstance(n, ast.Name) and n.id == "self" else None)
 
 
 def _canon(e):
